@@ -76,7 +76,8 @@ SPECS["C09"] = {
 def plan_c10(tier, seed):
     if tier == "quick":
         return checks("main", 8, 40000) + shards("plain", "sparse-12", 8)
-    runs = checks("main", 10, 500000) + checks("nohook", 2, 300000) + shards("plain", "sparse-17", 16, timeout=7000)
+    runs = (checks("main", 10, 500000) + checks("nohook", 2, 300000) + shards("plain", "sparse-17", 16, timeout=7000)
+            + shards("plain", "wide-50", 16, timeout=7000))
     # every float bit pattern at three (precision, format) pairs, plain -O2 build, 16 shards each
     for what in ("floats-9-0", "floats-6-1", "floats-2-2"):
         runs += shards("plain", what, 16, timeout=7000)
@@ -93,7 +94,8 @@ SPECS["C10"] = {
     "plan": plan_c10,
     "exhaustive_enums": ["floats-9-0", "floats-6-1", "floats-2-2", "sparse-12", "sparse-17"],
     "rule": ("enumerated: every double with an odd significand part of at most 12 bits (quick) / 17 bits (thorough) in the binades below 1e-200 and above 1e200 at "
-             "every precision 0..40 in the Default format (60 M / 1.9 G conversions); generated: "
+             "every precision 0..40 in the Default format (60 M / 1.9 G conversions); thorough also prints 800 M pseudo-random doubles with |binary exponent| >= 200 "
+             "(hundreds of digits) in Fixed / SemiFixed at precision 0..3 and Default at 17..40; generated: "
              "case = (value, precision 0..40, format Default/Fixed/SemiFixed, unit width, stream prefix); values: doubles from 14 classes (uniform bits, "
              "modest binades, short decimals m*10^e, everyday decimals, exact binary ties, integers, power-of-ten / power-of-two neighbourhoods, "
              "subnormals, sparse mantissas, specials, nine-runs), floats (uniform, short decimals, ties, specials), integers of 8/16/32/64 bits "
@@ -113,8 +115,9 @@ SPECS["C10"] = {
 # ---------------------------------------------------------------------------------------------- C11
 def plan_c11(tier, seed):
     if tier == "quick":
-        return checks("main", 8, 40000)
-    return checks("main", 8, 500000) + shards("plain", "floats", 16, timeout=7000) + shards("plain", "doubles-lattice", 16, timeout=7000)
+        return checks("main", 8, 40000) + shards("plain", "least-slack-4", 16)
+    return (checks("main", 8, 500000) + shards("plain", "floats", 16, timeout=7000) + shards("plain", "doubles-lattice", 16, timeout=7000)
+            + shards("plain", "least-slack-400", 16, timeout=7000))
 
 
 SPECS["C11"] = {
@@ -127,6 +130,8 @@ SPECS["C11"] = {
     "exhaustive_enums": ["floats"],
     "rule": ("case = finite double (same 14 generator classes as C10: uniform bits, binades, short decimals, ties, powers of 2/10 +-2 ulp, subnormals, "
              "sparse mantissas, extremes, +-0) formatted with 17 significant digits and parsed back, 1 or 3 cycles, 3 unit widths; or a float with 9 digits; "
+             "quick and thorough walk the 12 binades whose top lies closest above a power of ten (where the 17-digit text of a double has the least slack "
+             "before the midpoint to its neighbour) with an even stride: 64 M / 6.4 G doubles; "
              "thorough adds all finite floats (exhaustive) and a 60M-point lattice over the double bit patterns; non-trivial = value is not an integer "
              "below 2^53; distinct by bit pattern, width and cycles"),
     "engine": "rapidcheck + complete enumeration of floats",
@@ -237,18 +242,21 @@ SPECS["C07"] = {
 # ---------------------------------------------------------------------------------------------- C08
 def plan_c08(tier, seed):
     if tier == "quick":
-        return checks("main", 8, 12000)
-    return checks("main", 14, 150000) + checks("nohook_avx2", 2, 100000)
+        return checks("main", 8, 12000) + shards("plain", "least-slack-2", 8)
+    return checks("main", 14, 150000) + checks("nohook_avx2", 2, 100000) + shards("plain", "least-slack-200", 16, timeout=7000)
 
 
 SPECS["C08"] = {
     "builds": {
         "main": Build("main", "harness/c08_stringify.cpp"),
         "nohook_avx2": Build("nohook_avx2", "harness/c08_stringify.cpp", hook=False, simd="avx2"),
+        "plain": Build("plain", "harness/c08_stringify.cpp", san="plain", hook=False),
     },
     "default_build": "main",
     "plan": plan_c08,
-    "rule": ("case = entropy bytes -> construction program over the public Value API (every scalar assignment overload incl. float/int/unsigned, "
+    "rule": ("enumerated: arrays of eight doubles taken with an even stride from the 12 binades whose top lies closest above a power of ten (least slack of a 17-digit text), "
+             "16 M (quick) / 3.2 G (thorough) numbers, each array stringified with 17 digits, parsed back (equal values) and stringified again (fixed point); generated: "
+             "case = entropy bytes -> construction program over the public Value API (every scalar assignment overload incl. float/int/unsigned, "
              "strings through C-string / String copy and move / StringView / (ptr,len) constructor, arrays grown by += copy/move and indexed write, "
              "objects through [] by C-string/String/StringView, Get, Insert with duplicate keys, RemoveIndex / Remove incl. last and all members, "
              "pointer-to-value members, nesting <= 6, strings over all code units incl. NUL/controls/quote/backslash/astral and a labelled ill-formed class, "
